@@ -289,8 +289,33 @@ def run(repo: Repo, chk: Check) -> None:
                what=f'create_type on `{label}` with annotations %fld :typ gives {[repr(o) for o in outs][:1]}')
     chk.minimum('anonymous-type samples', nanon, 8)
 
+    # ---- 4 every container type built during execution is built from anonymous argument types (provenance analysis, sa/annotflow.py) --------
+    chk.set_clause('C17.4')
+    from ..annotflow import findings as annot_findings
+    af = annot_findings(repo)
+    chk.require(len(af['restricted']) >= 5, f'the prims whose argument types must be anonymous were not found in create_type: {af["restricted"]}')
+    chk.minimum('create_type sites on restricted containers', af['sinks'], 15)
+    chk.note('container_argument_provenance', {'restricted_prims': af['restricted'], 'sites': af['sinks'], 'anonymous': af['anon'], 'unknown': af['unknown'][:10]})
+    for row in af['tainted']:
+        chk.ob('R-FLOW', row['sink'].split(' ')[1], False, f'container argument type is anonymous: {row["sink"].split(" ", 2)[2]}', row['sink'].split(' ')[0],
+               {'comes_from': row['from'], 'via': row['via']},
+               what=f'{row["sink"]} from a type that may still carry a field annotation ({row["from"]} {row["via"]}): for a component of an annotated pair / an annotated '
+                    'parameter root the instruction fails with "argument type cannot be annotated" while the unannotated program succeeds')
+    chk.ob('R-FLOW', 'create_type(args=...) on option/list/set/map/big_map/contract/lambda', not af['tainted'],
+           'no container is built from the class of a value or from a section root without get_anon_type()', None,
+           {'sites': af['sinks'], 'argument expressions proved anonymous': af['anon'], 'of unknown provenance': len(af['unknown'])})
+
 
 def controls(chk: Check) -> None:
+    # the provenance rule must see `type(v)` as a possibly annotated class
+    import ast as _ast
+    from ..annotflow import Flow, T as _T
+    from ..model import Repo as _Repo
+    _r = _Repo()
+    _fl = Flow(_r)
+    _fi = _r.func('pytezos.michelson.types.option.OptionType.from_some')
+    if _fl.taint(_fi, _ast.parse('type(item)', mode='eval').body) != _T or _fl.taint(_fi, _ast.parse('item.get_anon_type()', mode='eval').body) != 'ANON':
+        raise AnalysisError('annotation provenance control failed')
     vs = comb_variants(4)
     if len(vs) != 18 or not any(v.args[1].field_name for _, v in vs):
         raise AnalysisError('comb variant generator control failed')
